@@ -380,7 +380,8 @@ def gen_bool():
                 ast.unparse(body[-1]) != N("return (set_result, set_exception, cancel_futures)"):
             raise Unsupported(cls + ".get_state_update frame")
         voc = {"self.fs": ("fs", "list"), "f.cancelled()": ("(v_cancelled f)", "bool"),
-               "f.exception()": ("(v_failed f)", "bool"), "f.result()": ("(v_truthy f)", "bool"),
+               "f.exception() is not None": ("(v_failed f)", "bool"), "f.exception() is None": ("(negb (v_failed f))", "bool"),
+               "f.result()": ("(v_truthy f)", "bool"),
                "list(self.fs.keys())": ("fs", "list")}
         ex = Ex(voc, {"set_result": ("set_result", "bool"), "set_exception": ("set_exception", "bool"),
                       "cancel_futures": ("cancel_futures", "list"), "done": ("done", "bool")})
@@ -454,7 +455,7 @@ def gen_zip():
     if not isinstance(w, ast.With) or ast.unparse(w.items[0].context_expr) != "self.lock" or len(w.body) != 1:
         raise Unsupported("Zipper.handle_done with")
     voc = {"self.done": ("done", "bool"), "f.cancelled()": ("(v_cancelled f)", "bool"),
-           "f.exception()": ("(v_failed f)", "bool"), "self.count_remaining": ("remaining", "Z")}
+           "f.exception() is not None": ("(v_failed f)", "bool"), "self.count_remaining": ("remaining", "Z")}
     ex = Ex(voc, {"set_result": ("set_result", "bool"), "set_exception": ("set_exception", "bool"),
                   "cancel": ("cancel", "bool"), "done": ("done", "bool"), "remaining": ("remaining", "Z"),
                   "store": ("store", "bool")})
